@@ -25,6 +25,44 @@ type towerArgs struct {
 	Inner string `json:"inner"` // scalar: Depth containers around 0; empty: the innermost container is empty
 	Sib   bool   `json:"sib"`   // every non-empty container has an earlier sibling element/member
 	WS    bool   `json:"ws"`    // newline after every structural token
+	// Leaf > 0 (Inner=empty only): the innermost empty container of the GO value is a typed one
+	// (zero-length array, empty typed slice / map, field-less struct, pointers to those) - same JSON text
+	Leaf int `json:"leaf,omitempty"`
+}
+
+const nLeaves = 6
+
+func typedLeaf(obj bool, k int) any {
+	if obj {
+		switch k {
+		case 1:
+			return map[string]int{}
+		case 2:
+			return struct{}{}
+		case 3:
+			return &struct{}{}
+		case 4:
+			return struct {
+				X int `json:",omitzero"`
+			}{}
+		case 5:
+			return map[int]*bool{}
+		}
+		return &map[string]any{}
+	}
+	switch k {
+	case 1:
+		return [0]int{}
+	case 2:
+		return []int{}
+	case 3:
+		return &[0]bool{}
+	case 4:
+		return [0][3]string{}
+	case 5:
+		return []*[0]int{}
+	}
+	return &[]any{}
 }
 
 func (a *towerArgs) isObj(i int) bool {
@@ -122,6 +160,8 @@ func (a *towerArgs) goValue(from int, inner any) any {
 	}
 	for i := a.Depth - 1; i >= from; i-- {
 		switch {
+		case a.emptyLevel(i) && inner == nil && a.Leaf > 0:
+			v = typedLeaf(a.isObj(i), a.Leaf)
 		case a.emptyLevel(i) && inner == nil && a.isObj(i):
 			v = map[string]any{}
 		case a.emptyLevel(i) && inner == nil:
@@ -372,7 +412,7 @@ func (r *oneByteReader) Read(p []byte) (int, error) {
 func iotestOneByte(b []byte) io.Reader { return &oneByteReader{b} }
 
 func (a *towerArgs) shape() string {
-	return fmt.Sprintf("%s/%d/%s/sib=%v/ws=%v", a.Mix, a.Depth, a.Inner, a.Sib, a.WS)
+	return fmt.Sprintf("%s/%d/%s/sib=%v/ws=%v/leaf=%d", a.Mix, a.Depth, a.Inner, a.Sib, a.WS, a.Leaf)
 }
 
 func verdict(w *run.W, family, path string, a *towerArgs, extra string, plus int, accept bool) {
